@@ -289,7 +289,7 @@ fn main() {
         }
         "pools" => {
             let p = build_pools();
-            println!("exprs={} holiday={} easter={} countries={} excluded={}", p.exprs.len(), p.holiday_exprs.len(), p.easter_exprs.len(), p.countries.len(), p.excluded.len());
+            println!("exprs={} holiday={} easter={} countries={} excluded={} lossy_normal={:?}", p.exprs.len(), p.holiday_exprs.len(), p.easter_exprs.len(), p.countries.len(), p.excluded.len(), p.lossy_normal_exprs);
             println!("dense expressions: {}", p.dense_exprs.len());
             println!("border pairs: {:?}", p.border_pairs);
             println!("spacing variants: {}", p.spacing_variants.len());
